@@ -196,6 +196,36 @@ def run(ctx):
         if g2:
             ctx.violation('verify(digest, signature object, other key) accepts a signature made by another key', {'op': 'object-history verify()'})
 
+    # ---- one message, one signature: the digest written as bytes, as lower-case or as upper-case hexadecimal text is the same message;
+    # the public key given as object, bytes or hexadecimal text is the same key
+    for _ in range(40 if T else 12):
+        zz = rng.getrandbits(256) | (0xab << 240)        # (has hexadecimal letters)
+        kd = Key(rng.randrange(1, N))
+        spell = {'lower': zh(zz), 'upper': zh(zz).upper(), 'bytes': bytes.fromhex(zh(zz))}
+        sigs = {}
+        for nm, zform in spell.items():
+            try:
+                sg_ = sign(zform, kd)
+                sigs[nm] = (sg_.r, sg_.s)
+            except Exception as e:
+                sigs[nm] = 'raise:' + type(e).__name__
+        ctx.evals += 1
+        ctx.count('digest-spellings')
+        if len(set(sigs.values())) != 1:
+            ctx.violation('the signature depends on how the digest is written (not a function of key and message)', {'op': 'sign spellings', 'digest': zh(zz), 'observed': {k_: str(v_)[:40] for k_, v_ in sigs.items()}})
+            continue
+        sg_ = sign(zh(zz), kd)
+        pubs = {'object': kd.public(), 'bytes': kd.public_byte, 'hex': kd.public_hex}
+        for nm, pf in pubs.items():
+            for znm, zform in spell.items():
+                try:
+                    ok_ = verify(zform, sg_.as_der_encoded(), pf)
+                except Exception as e:
+                    ok_ = 'raise:' + type(e).__name__
+                ctx.evals += 1
+                if ok_ is not True:
+                    ctx.violation('a valid (digest, signature, public key) triple is not accepted in every documented form of its parts',
+                                  {'op': 'verify forms', 'public_key_as': nm, 'digest_as': znm, 'observed': str(ok_)})
     # ---- DER parsing ----------------------------------------------------------------------------------------
     def lib_der(der):
         try:
